@@ -325,10 +325,23 @@ func runHTTP(s Script) (clientView, int) {
 			}
 		}
 	}
-	m := dynamicpb.NewMessage(world.MsgDesc("un.All"))
-	proto.Unmarshal(s.Msgs[0], m)
-	body, _ := protojson.Marshal(m)
-	res := drive.Serve(mux, drive.Request("POST", methods[s.Shape], "", hdr, bytes.NewReader(body), int64(len(body))))
+	// unary / server streaming: the body is the message; client / bidi streaming: a stream of JSON messages
+	var body []byte
+	msgs := s.Msgs
+	if (s.Shape == "unary" || s.Shape == "server") && len(msgs) > 1 {
+		msgs = msgs[:1]
+	}
+	for _, raw := range msgs {
+		m := dynamicpb.NewMessage(world.MsgDesc("un.All"))
+		proto.Unmarshal(raw, m)
+		b, _ := protojson.Marshal(m)
+		body = append(body, b...)
+	}
+	cl := int64(len(body))
+	if s.Shape == "client" || s.Shape == "bidi" {
+		cl = -1
+	}
+	res := drive.Serve(mux, drive.Request("POST", methods[s.Shape], "", hdr, bytes.NewReader(body), cl))
 	if res.Panic != nil {
 		v.Err = "panic: " + fmt.Sprint(res.Panic)
 		return v, 0
@@ -472,9 +485,6 @@ func genScript(t *rapid.T) Script {
 	s := Script{FailPoint: "none"}
 	s.Shape = rapid.SampledFrom([]string{"unary", "client", "server", "bidi"}).Draw(t, "shape")
 	s.Front = rapid.SampledFrom([]string{"grpc", "grpc", "grpc-gzip", "http"}).Draw(t, "front")
-	if s.Front == "http" && (s.Shape == "client" || s.Shape == "bidi") {
-		s.Front = "grpc"
-	}
 	n := 1
 	if s.Shape == "client" || s.Shape == "bidi" {
 		n = rapid.IntRange(0, 5).Draw(t, "n")
